@@ -38,6 +38,9 @@ CHECKS = {
     'C15': ('two-run symbolic execution of the real rate() in one path (sx engine) + z3 equality of result terms; sat models replayed on float code',
             'For symbolic t >= 0 (the t == 0 fork included), symbolic model-level tau, all b, b0: rate with the per-call option returns the same terms as a model constructed with that option; omitted/None uses the model\'s own.',
             TRUST, '6/C15'),
+    'C04': ('two-run symbolic execution of the real rate() in one path (original vs permuted presentation) + z3 equality of the posterior terms; sat models replayed on float code',
+            'For the listed shapes, every weak order and every admissible permutation of teams (all n! for n <= 3; 4 teams in thorough) and player reversal: every player gets the identical real-valued posterior in both presentations, for all mu, sigma, beta, tau, kappa.',
+            TRUST, '6/C04'),
     'C07': ('bounded symbolic execution of the real rate() (sx engine) + z3 QF_NRA per path; sat models replayed on float code',
             'For every model, the listed team shapes and every weak order, z3 shows on every path of the real rate() that the '
             'precision-weighted mu change cannot differ from zero (TM: cannot exceed the tied-pair margin) for any mu, sigma, beta, tau, kappa in the domain.',
